@@ -387,3 +387,171 @@ Proof.
   - exfalso. destruct e; simpl in PE; contradiction.
 Qed.
 End Barrier.
+
+(* ------------------------------------------------------------------ the invariant along every schedule *)
+Lemma Inv_step : forall c tid ch st st', c_track_sync c = true -> Inv st -> step c tid ch st = Some st' -> Inv st'.
+Proof.
+  intros c tid ch st st' Ht I H. unfold step in H.
+  destruct (nth_error (ths st) tid) as [th|] eqn:Hn; try discriminate.
+  destruct (tstep c tid ch th (sh st)) as [[[th' S'] ev]|] eqn:Hs; try discriminate.
+  inversion H; subst; clear H.
+  destruct I as [G|[m [Hm R]]].
+  - left. simpl. apply monr_app_inr; auto.
+  - destruct (tstep_inv _ _ _ _ _ _ _ _ Hs) as [[i [rest [code' [Hc [Hi E]]]]]|[Hc [p' [code' [Hp E]]]]]; subst th'.
+    + destruct (Rel_istep c m st tid th i rest code' S' ev R Hn Hc Hi) as [Hsb R'].
+      right. exists m. split; auto. simpl.
+      pose proof (i_ev _ _ _ _ _ _ _ _ Hi) as Hev.
+      destruct ev as [|e [|e2 ev2]]; simpl in *; auto; try contradiction.
+      * rewrite Hm. destruct e; simpl in Hev; try contradiction; simpl; auto.
+        rewrite (Hsb _ _ eq_refl). reflexivity.
+      * destruct e; contradiction.
+    + eapply Rel_pstep; eauto.
+Qed.
+
+Lemma cnt_spawn_zero : forall f roles, (forall r, f (t_pc (spawn r)) = 0) -> cnt f (map spawn roles) = 0.
+Proof. induction roles; simpl; intros; auto. rewrite H, IHroles; auto. Qed.
+
+Lemma Inv_init : forall cap0 async sync roles, Inv (init cap0 async sync roles).
+Proof.
+  intros. right. exists mon0. split; [reflexivity|].
+  assert (Z : forall f, (forall r, f (t_pc (spawn r)) = 0) -> cnt f (map spawn roles) = 0) by (intros; apply cnt_spawn_zero; auto).
+  constructor; simpl; try discriminate; try (intros; contradiction).
+  - rewrite total_weight_cnt. lia.
+  - apply Forall_forall. intros th Hin. apply in_map_iff in Hin. destruct Hin as [r [E _]]. subst th. destruct r; reflexivity.
+  - apply Z. intros []; reflexivity.
+  - symmetry. apply Z. intros []; reflexivity.
+  - intro G. rewrite Z in G; [lia|]. intros []; reflexivity.
+  - intro G. lia.
+Qed.
+
+Lemma Inv_run : forall c sched st, c_track_sync c = true -> Inv st -> Inv (run c sched st).
+Proof.
+  intros c sched. induction sched as [|e r IH]; intros st Ht I; simpl; auto.
+  apply IH; auto. unfold step_or_skip. destruct (step c (fst e) (snd e) st) eqn:E; auto. eapply Inv_step; eauto.
+Qed.
+
+(* stop_barrier: on every schedule of every configuration of the repaired protocol, the observable trace
+   satisfies the monitor; the only thing that can go "wrong" is that a Stop gave up after its grace period. *)
+Theorem stop_barrier : forall c cap0 async sync roles sched, c_track_sync c = true ->
+  chk_state (run c sched (init cap0 async sync roles)) = None \/
+  chk_state (run c sched (init cap0 async sync roles)) = Some ClStopGrace.
+Proof.
+  intros. unfold chk_state. destruct (Inv_run c sched _ H (Inv_init cap0 async sync roles)) as [G|[m [G _]]]; rewrite G; auto.
+Qed.
+
+(* state form: once some Stop went through the drained branch of waitLifecycle, the lifecycle counter is
+   0 for ever, no tracked goroutine is alive, no consumer goroutine is pending, and no thread of the system
+   has a sink invocation (or anything that leads to one) left to execute. *)
+Theorem joined_drained : forall c cap0 async sync roles sched, c_track_sync c = true ->
+  let st := run c sched (init cap0 async sync roles) in
+  chk_state st = None -> joined (sh st) = true ->
+  life (sh st) = 0 /\ tokens (sh st) = 0 /\ stopped (sh st) = true /\ cnt weight (ths st) = 0.
+Proof.
+  intros c cap0 async sync roles sched Ht st Hc J. unfold chk_state in Hc.
+  destruct (Inv_run c sched _ Ht (Inv_init cap0 async sync roles)) as [G|[m [G R]]]; fold st in G; rewrite G in Hc; try discriminate.
+  fold st in R. destruct (rH _ _ R J) as [L S0]. pose proof (rA _ _ R). repeat split; auto; lia.
+Qed.
+
+(* ------------------------------------------------------------------ idempotence, Emit after Stop, panics *)
+(* A Stop issued when the flag is already set: three own steps, shared state untouched, whatever the
+   other threads are doing. *)
+Lemma step_pc : forall c tid ch st p a p' code' S' ev,
+  nth_error (ths st) tid = Some (mk p [] a) -> pstep c tid ch p a (sh st) = Some (p', code', S', ev) ->
+  step_or_skip c st (tid, ch) = {| sh := S'; ths := set_nth tid (mk p' code' a) (ths st); trace := rev ev ++ trace st |}.
+Proof. intros. unfold step_or_skip, step. simpl. rewrite H. unfold tstep. simpl. rewrite H0. reflexivity. Qed.
+Lemma set_nth_twice : forall A (l : list A) n x y, set_nth n x (set_nth n y l) = set_nth n x l.
+Proof. induction l as [|h l IH]; intros [|n] x y; simpl; auto. rewrite IH. reflexivity. Qed.
+
+Theorem stop_idempotent : forall c tid a st c1 c2 c3,
+  nth_error (ths st) tid = Some (mk StBegin [] a) -> stopped (sh st) = true ->
+  run c [(tid, c1); (tid, c2); (tid, c3)] st =
+  {| sh := sh st; ths := set_nth tid (mk Done [] a) (ths st);
+     trace := EStopReturn tid true :: EStopBegin tid :: trace st |}.
+Proof.
+  intros c tid a st c1 c2 c3 Hn Hs. unfold run. simpl.
+  rewrite (step_pc c tid c1 st StBegin a StFlag [] (sh st) [EStopBegin tid] Hn eq_refl).
+  erewrite (step_pc c tid c2 _ StFlag a (StReturn true) [] (sh st) []).
+  2:{ simpl. eapply nth_error_set_nth_eq; eauto. }
+  2:{ simpl. rewrite Hs. reflexivity. }
+  erewrite (step_pc c tid c3 _ (StReturn true) a Done [] (sh st) [EStopReturn tid true]).
+  2:{ simpl. eapply nth_error_set_nth_eq. eapply nth_error_set_nth_eq; eauto. }
+  2:{ reflexivity. }
+  simpl. rewrite !set_nth_twice. reflexivity.
+Qed.
+
+(* Emit on a stopped stream whose channel pointer is nil (Stop sets both before it joins): at most two
+   own steps, never blocked, shared state untouched, nothing enqueued -- for the three strategies. *)
+Theorem emit_after_stop_noop : forall c tid ch a s, stopped s = true -> ptr_nil s = true ->
+  exists p', pstep c tid ch PdStart a s = Some (p', [], s, []) /\
+             (p' = Done \/ (p' = PdDropGet /\ forall ch', pstep c tid ch' PdDropGet a s = Some (Done, [], s, []))).
+Proof.
+  intros c tid ch a s Hs Hn. simpl. unfold safe_send. rewrite Hs, Hn. destruct (c_strategy c).
+  - exists PdDropGet. split; auto.
+  - exists Done. split; auto.
+  - exists Done. split; auto.
+Qed.
+
+Lemma unwind_acts : forall post rest, unwind (map IAct post ++ IEnd :: rest) = IEnd :: rest.
+Proof. induction post; simpl; auto. Qed.
+
+(* a panic anywhere inside a sink lands on the wrapper's recover: the rest of the sink body is skipped,
+   everything after it (the remaining sinks of the batch, the unlock, the goroutine's loop) is intact,
+   shared state untouched *)
+Theorem panic_isolated_sink : forall c tid post rest s,
+  istep c tid (IAct APanic) (map IAct post ++ IEnd :: rest) s = Some (IEnd :: rest, s, []).
+Proof. intros. simpl. rewrite unwind_acts. reflexivity. Qed.
+
+(* a row that panics inside processItem leaves the processor exactly where a filtered row leaves it *)
+Theorem panic_isolated_row : forall c tid a s id r, q s = id :: r ->
+  pstep c tid 2 PrSelect a s = Some (PrLoop, [], upd_q s r, [EProc id true]) /\
+  pstep c tid 1 PrSelect a s = Some (PrLoop, [], upd_q s r, [EProc id false]).
+Proof. intros. simpl. rewrite H. auto. Qed.
+
+(* a window batch that panics (repaired consumer) leaves the consumer exactly where an empty result leaves it *)
+Theorem panic_isolated_batch : forall c tid a s, c_batch_recover c = true ->
+  pstep c tid 2 CoLoop a s = pstep c tid 1 CoLoop a s.
+Proof. intros. simpl. destruct (wq s); auto. rewrite H. reflexivity. Qed.
+
+(* a finished goroutine never moves again *)
+Lemma done_never_steps : forall c tid ch a s, tstep c tid ch (mk Done [] a) s = None.
+Proof. reflexivity. Qed.
+
+(* ------------------------------------------------------------------ witnesses: the code as found *)
+Definition cfg_of (fixed track brec w cep : bool) : cfg :=
+  {| c_fixed_lock := fixed; c_track_sync := track; c_batch_recover := brec; c_window := w; c_cep := cep;
+     c_strategy := SDrop; c_block_timeout := false; c_pool_cap := 1; c_max_cap := 4 |}.
+Definition rep (n : nat) (e : nat * nat) : list (nat * nat) := repeat e n.
+
+(* F11: EmitSync (or the processor) runs a synchronous sink that calls AddSink while callSinksAsync holds the read lock *)
+Definition f11_state (fixed : bool) : state :=
+  run (cfg_of fixed true true false false) (rep 5 (0, 0)) (init 4 [] [[AAddSink false]] [RSync; RStopper]).
+Lemma f11_stuck : lock_stuckb (cfg_of false true true false false) (f11_state false) = true.
+Proof. vm_compute. reflexivity. Qed.
+Lemma f11_repaired_not_stuck : lock_stuckb (cfg_of true true true false false) (f11_state true) = false.
+Proof. vm_compute. reflexivity. Qed.
+
+(* F18a: EmitSync after Stop returned invokes the synchronous sink *)
+Definition f18a_trace (track : bool) : state :=
+  run (cfg_of true track true false false) (rep 9 (0, 0) ++ rep 5 (1, 0)) (init 4 [] [[]] [RStopper; RSync]).
+Lemma f18a_violation : chk_state (f18a_trace false) = Some ClSinkAfterStop.
+Proof. vm_compute. reflexivity. Qed.
+Lemma f18a_repaired : chk_state (f18a_trace true) = None /\ In (ESyncEnd 1 false) (trace (f18a_trace true)).
+Proof. vm_compute. auto. Qed.
+
+(* F18b: a panicking batch ends the window-output consumer; the next batch is never taken *)
+Definition f18b_state (brec : bool) : state :=
+  run (cfg_of true true brec true false) [(0,0); (0,0); (1,0); (2,0); (1,2); (1,0); (3,0)]
+      (init 4 [] [[]] [RProcessor; RConsumer; RTrigger; RTrigger]).
+Lemma f18b_dead : nth_error (ths (f18b_state false)) 1 = Some (mk Done [] 0) /\ wq (sh (f18b_state false)) = 1
+                  /\ closed (sh (f18b_state false)) = false.
+Proof. vm_compute. auto. Qed.
+Lemma f18b_repaired : enabledb (cfg_of true true true true false) 1 (f18b_state true) = true.
+Proof. vm_compute. reflexivity. Qed.
+
+(* F18c: a Stop that loses the CAS returns at once, while the winner is still waiting and a sink begins later *)
+Definition f18c_state : state :=
+  run (cfg_of true true true false false)
+      ([(0,0)] ++ rep 6 (1,0) ++ rep 3 (2,0) ++ rep 3 (0,0)) (init 4 [] [[]] [RSync; RStopper; RStopper]).
+Lemma f18c_loser_early : rev (trace f18c_state) =
+  [ESyncBegin 0; EStopBegin 1; EStopBegin 2; EStopReturn 2 true; ESinkBegin 0 false].
+Proof. vm_compute. reflexivity. Qed.
